@@ -39,12 +39,17 @@ GroupSizesAll(st, e, k) ==
 PairOps  == {"rbind", "cbind", "update"}
 JoinKs   == {"left", "inner", "semi", "anti"}
 Transforming == RowOps \cup ColOps \cup PairOps \cup JoinKs \cup {"full", "deepcopy", "gmodify"}
+(* calls that return something else than a frame of the session (a summary, index lists, text): the session state -
+   every frame's columns, cells and grouping - is exactly what it was *)
+Observers == {"count", "aggregate", "split", "render"}
+(* unique() without column names means all columns *)
+NormArg(f, a) == IF a.op = "unique" /\ a.cols = <<>> THEN [a EXCEPT !.cols = f.cols] ELSE a
 InPlaceOps == {"setitem", "setcol", "delitem", "delattr", "pop", "colnames", "group_by"}
 
 ResultOf(st, e) ==            \* the abstract frame a transforming call must return (full join: see trace spec)
   LET f == View(st, e.x) IN
   CASE e.op = "sort"        -> Rows(f, SortPick(f, e.a.keys, e.a.dirs))
-    [] e.op \in RowOps      -> Rows(f, Pick(f, e.a))
+    [] e.op \in RowOps      -> Rows(f, Pick(f, NormArg(f, e.a)))
     [] e.op \in ColOps      -> C!Expected(e.a, <<f>>)
     [] e.op \in PairOps     -> C!Expected(e.a, <<f, View(st, e.o)>>)
     [] e.op = "left"        -> J!LeftJoin(f, View(st, e.o), <<"k">>)
@@ -54,6 +59,8 @@ ResultOf(st, e) ==            \* the abstract frame a transforming call must ret
     [] e.op = "deepcopy"    -> f
     [] e.op = "gmodify"     -> C!Modify(f, e.name, GroupCol(st, e))
 
+CtorLens(st, e) == {Len(e.col)} \cup (IF Range(st.frames[e.x].cols) \ {e.name} = {} THEN {} ELSE {NRowH(st, e.x)})   \* the keyword replaces a column of that name
+CtorN(st, e) == CHOOSE m \in CtorLens(st, e) : \A l \in CtorLens(st, e) : l <= m
 Bcast(col, n) == IF Len(col) = n THEN col ELSE [i \in 1..n |-> col[1]]
 FitsRows(st, h, col) == st.frames[h].cols = <<>> \/ Len(col) = NRowH(st, h) \/ Len(col) = 1
 
@@ -76,6 +83,19 @@ Step(st, e, shares) ==
   ELSE IF e.op = "setitem" THEN
        LET n == IF st.frames[e.x].cols = <<>> THEN Len(e.col) ELSE NRowH(st, e.x) IN
        SetBuf([st EXCEPT !.bufs = Append(@, Bcast(e.col, n))], e.x, e.name, Len(st.bufs) + 1)
+  ELSE IF e.op = "ctor" THEN
+       (* DataFrame(frame, name=value): the constructor's rule - the row count is the largest length among the frame's
+          columns and the value; shorter ones must have length one and are repeated (fresh arrays); columns that
+          already have the row count are taken as they are (shared with the frame, as for copy); not grouped *)
+       LET f == st.frames[e.x]
+           n == CtorN(st, e)
+           grow == f.cols # <<>> /\ NRowH(st, e.x) # n
+           pos(c) == CHOOSE i \in DOMAIN f.cols : f.cols[i] = c
+           bufs1 == IF grow THEN st.bufs \o [i \in DOMAIN f.cols |-> Bcast(st.bufs[f.buf[f.cols[i]]], n)] ELSE st.bufs
+           fr1 == [cols |-> f.cols, grp |-> <<>>,
+                   buf |-> [c \in Range(f.cols) |-> IF grow THEN Len(st.bufs) + pos(c) ELSE f.buf[c]]]
+           s1 == [bufs |-> Append(bufs1, Bcast(e.col, n)), frames |-> Append(st.frames, fr1)] IN
+       SetBuf(s1, Len(s1.frames), e.name, Len(s1.bufs))
   ELSE IF e.op = "setcol" THEN
        IF shares THEN SetBuf(st, e.x, e.name, st.frames[e.o].buf[e.oname])
        ELSE SetBuf([st EXCEPT !.bufs = Append(@, st.bufs[st.frames[e.o].buf[e.oname]])], e.x, e.name, Len(st.bufs) + 1)
@@ -90,6 +110,7 @@ Step(st, e, shares) ==
   ELSE st
 
 MustFail(st, e) == \/ e.op = "setitem" /\ ~FitsRows(st, e.x, e.col)
+                   \/ e.op = "ctor" /\ \E l \in CtorLens(st, e) : l # 1 /\ l # CtorN(st, e)
                    \/ e.op = "gmodify" /\ e.flen # 1 /\ ~GroupSizesAll(st, e, e.flen)
 
 HasCols(st, h, names) == names \subseteq Range(st.frames[h].cols)
@@ -101,7 +122,12 @@ EventOK(st, e) ==
   /\ CASE e.op \in {"filter", "filter_out"} -> Len(e.a.mask) = NRowH(st, e.x) /\ st.frames[e.x].cols # <<>>
        [] e.op \in {"slice", "slice_off"} -> \A t \in DOMAIN e.a.idx : e.a.idx[t] < NRowH(st, e.x)
        [] e.op \in {"head", "tail"} -> TRUE
-       [] e.op \in {"drop_na", "unique"} -> HasCols(st, e.x, Range(e.a.cols)) /\ e.a.cols # <<>>
+       [] e.op = "drop_na" -> HasCols(st, e.x, Range(e.a.cols)) /\ e.a.cols # <<>>
+       [] e.op = "unique" -> HasCols(st, e.x, Range(e.a.cols)) /\ st.frames[e.x].cols # <<>>
+       [] e.op \in {"count", "split"} -> HasCols(st, e.x, Range(e.cols)) /\ e.cols # <<>>
+       [] e.op = "aggregate" -> st.frames[e.x].grp # <<>> /\ HasCols(st, e.x, Range(st.frames[e.x].grp))
+       [] e.op = "render" -> TRUE
+       [] e.op = "ctor" -> TRUE
        [] e.op = "sort" -> /\ HasCols(st, e.x, Range(e.a.keys)) /\ e.a.keys # <<>>
                            /\ \A t \in DOMAIN e.a.keys : e.a.dirs[t] = 1 \/ NoNA(st, e.x, e.a.keys[t])
        [] e.op \in {"select", "unselect"} -> HasCols(st, e.x, Range(e.a.names)) /\ (e.op = "unselect" \/ e.a.names # <<>>)
